@@ -250,15 +250,14 @@ def run(res):
     # a body that begins with .org / a segment directive, called at address 0 and elsewhere; calls of other macros BEHIND a segment
     # directive or an .org inside a body
     pairs += segment_first_pairs()
-    for pre in ():
-        pairs.append((".macro at\n.org 0x40\n .dw @0\n.endm\n" + pre + " at 5\n nop\n", pre + ".org 0x40\n .dw (5)\n nop\n"))
-        pairs.append((".macro ee\n.eseg\n .db @0\n.endm\n" + pre + " ee 9\n.cseg\n nop\n", pre + ".eseg\n .db (9)\n.cseg\n nop\n"))
-        pairs.append((".macro ee\n.eseg\n .db @0, 1, 2\n.cseg\n.endm\n" + pre + " ee 9\n nop\n", pre + ".eseg\n .db (9), 1, 2\n.cseg\n nop\n"))
-        pairs.append((".macro var\n.dseg\nv@0: .byte 2\n.cseg\n.endm\n" + pre + " var 1\n var 2\n .dw v1, v2\n", pre + ".dseg\nv1: .byte 2\n.cseg\n.dseg\nv2: .byte 2\n.cseg\n .dw v1, v2\n"))
-        pairs.append((".macro inner\n .dw @0, @0\n.endm\n.macro outer\n nop\n.dseg\n .byte 1\n.cseg\n inner @0\n inner 2\n.endm\n" + pre + " outer 7\n nop\n",
-                      pre + " nop\n.dseg\n .byte 1\n.cseg\n .dw (7), (7)\n .dw (2), (2)\n nop\n"))
-        pairs.append((".macro inner\n .dw @0\n.endm\n.macro outer\n inner 1\n.org 0x80\n inner 2\n.eseg\n .db 3\n.cseg\n inner 4\n.endm\n" + pre + " outer\n",
-                      pre + " .dw (1)\n.org 0x80\n .dw (2)\n.eseg\n .db 3\n.cseg\n .dw (4)\n"))
+    # counted repetition: a macro that calls itself (or its partner) under a conditional on its parameter expands as many times as
+    # the parameter says, and not at all when the call stands in the branch that is not assembled
+    for n in (0, 1, 2, 3, 5, 10, 20, 40):
+        pairs.append((".macro rep\n.if @0 > 0\n nop\n rep @0-1\n.endif\n.endm\n rep %d\n .dw 0x1234\n" % n, " nop\n" * n + " .dw 0x1234\n"))
+        pairs.append((".macro down\n.if @0\n .dw @0\n DOWN @0-1\n.else\n .dw 0xE0E0\n.endif\n.endm\n down %d\n" % n,
+                      "".join(" .dw %d\n" % i for i in range(n, 0, -1)) + " .dw 0xE0E0\n"))
+        pairs.append((".macro ping\n.if @0 > 0\n .dw 0x1000 + @0\n pong @0-1\n.endif\n.endm\n.macro pong\n.if @0 > 0\n .dw 0x2000 + @0\n ping @0-1\n.endif\n.endm\n"
+                      " ping %d\n nop\n" % n, "".join(" .dw 0x%d000 + %d\n" % (1 + (n - i) % 2, i) for i in range(n, 0, -1)) + " nop\n"))
     errs = [(".macro m\n nop\n.endm\n.if 0\n.macro gone\n nop\n.endm\n.endif\n gone\n", "undefined-macro"),
             (".macro m\n nop\n.endm\n undefined_macro_call\n", "undefined-macro"),
             (".macro m\n ldi r16, @0\n.endm\n m\n", "missing-argument"),
@@ -281,7 +280,7 @@ def run(res):
     run_file_cases(res, vh, exe, rng, pairs, obs)
     res.extra["exhaustive"] = False
     res.rule = ("1-3 macro definitions drawn from %d body shapes (instructions, data, low/high pairs, index forms, conditionals on "
-                "parameters, bodies that switch to .dseg/.eseg and back, ten parameters), optionally one macro calling another, 1-4 "
+                "parameters, bodies that switch to .dseg/.eseg and back, ten parameters), optionally one macro calling another, counted self- and mutual recursion, 1-4 "
                 "calls in any letter case (before or after the definitions) with registers, index forms and expression trees of every "
                 "precedence as arguments; oracle: equal images with the generator's own expansion in which every expression argument "
                 "is substituted in parentheses; undefined macro and missing argument must fail" % len(BODIES))
